@@ -527,6 +527,13 @@ func extractBearerToken(r *http.Request) string {
 // Fast path: compare SHA-256 of token against cached value.
 // Slow path: bcrypt verify, then update cache on success.
 func (s *Server) validateToken(token string) bool {
+	// bcrypt only looks at the first 72 bytes of the NUL-terminated, cyclically repeated
+	// password: a longer string, or one with an embedded NUL byte, can compare equal to a
+	// different (shorter) configured token. Such strings are never valid tokens.
+	if len(token) > 72 || strings.IndexByte(token, 0) >= 0 {
+		return false
+	}
+
 	tokenSHA := sha256.Sum256([]byte(token))
 
 	// Fast path: check cache
